@@ -1552,6 +1552,45 @@ fire("c19-materialize-array-valued-integer-inputs", "C19", TENSOR_,
 silent("c19-s-materialize-scalar-test-as-len", "C19", TENSOR_,
        "            if isinstance(domain.dtype, int) and not domain.shape:\n", "            if isinstance(domain.dtype, int) and len(domain.shape) == 0:\n")
 
+# ---- round 12: R10.1 odd-tail guard, R10.8, R12.3 returns, R12.11, R12.12, R13.13 - R13.15, R14.11 - R14.13, R06.3 methods
+MONTECARLO = "funsor/montecarlo.py"
+fire("c10-odd-tail-only-for-time-dependent-transitions", "C10", SUMPROD,
+     "        if duration > even_duration:\n            extra = trans(", "        if duration > even_duration and time in trans.inputs:\n            extra = trans(", "R10.1", "sequential_sum_product")
+silent("c10-s-odd-tail-guard-as-parity", "C10", SUMPROD,
+       "        if duration > even_duration:\n            extra = trans(", "        if duration % 2 == 1:\n            extra = trans(")
+fire("c10-pairwise-recursion-counts-at-least-two", "C10", CNF,
+     "    reduced_twice = frozenset(v for v, count in counts.items() if count == 2)", "    reduced_twice = frozenset(v for v, count in counts.items() if count >= 2)", "R10.8", "eager_contraction_generic_recursive")
+fire("c12-gaussian-plus-itself-rescales-one-factor", "C12", GAUSS,
+     "    # Align data.\n    inputs = lhs.inputs.copy()\n", "    if lhs is rhs:\n        return Gaussian(lhs.white_vec, lhs.prec_sqrt * math.sqrt(2), lhs.inputs)\n    # Align data.\n    inputs = lhs.inputs.copy()\n", "R12.3", "eager_add_gaussian_gaussian")
+silent("c12-s-gaussian-plus-itself-rescales-both-factors", "C12", GAUSS,
+       "    # Align data.\n    inputs = lhs.inputs.copy()\n", "    if lhs is rhs:\n        return Gaussian(lhs.white_vec * math.sqrt(2), lhs.prec_sqrt * math.sqrt(2), lhs.inputs)\n    # Align data.\n    inputs = lhs.inputs.copy()\n")
+fire("c12-affine-product-rule-subtracts-affine-inputs", "C12", "funsor/affine.py",
+     "        lhs_affine = affine_inputs(fn.lhs) - _real_inputs(fn.rhs)\n", "        lhs_affine = affine_inputs(fn.lhs) - affine_inputs(fn.rhs)\n", "R12.11")
+fire("c12-substituted-values-gathered-in-pair-order", "C12", GAUSS,
+     "        value_b = ops.cat([values[k] for k, i in slices if k in b], -1)\n", "        value_b = ops.cat([v for k, v in values.items() if k in b], -1)\n", "R12.12", "_eager_subs_real")
+fire("c13-marginalize-helper-overwrites-normaliser", "C13", GAUSS,
+     "            prec_sqrt = ops.new_zeros(self.white_vec, batch_shape + (dim_b, 0))\n            result += Gaussian(white_vec, prec_sqrt, inputs)\n",
+     "            prec_sqrt = ops.new_zeros(self.white_vec, batch_shape + (dim_b, 0))\n            result = Gaussian(white_vec, prec_sqrt, inputs)\n", "R13.13", "_marginalize_after_split")
+silent("c13-s-marginalize-helper-adds-explicitly", "C13", GAUSS,
+       "            prec_sqrt = ops.new_zeros(self.white_vec, batch_shape + (dim_b, 0))\n            result += Gaussian(white_vec, prec_sqrt, inputs)\n",
+       "            prec_sqrt = ops.new_zeros(self.white_vec, batch_shape + (dim_b, 0))\n            result = result + Gaussian(white_vec, prec_sqrt, inputs)\n")
+fire("c14-marginalize-helper-overwrites-normaliser", "C14", GAUSS,
+     "            prec_sqrt = ops.new_zeros(self.white_vec, batch_shape + (dim_b, 0))\n            result += Gaussian(white_vec, prec_sqrt, inputs)\n",
+     "            prec_sqrt = ops.new_zeros(self.white_vec, batch_shape + (dim_b, 0))\n            result = Gaussian(white_vec, prec_sqrt, inputs)\n", "R14.12", "_marginalize_after_split")
+fire("c13-integrate-variable-mass-from-determinant", "C13", INTEGRATE,
+     "        data = loc * ops.unsqueeze(ops.exp(log_measure._log_normalizer), -1)\n",
+     "        log_det = ops.log(ops.diagonal(log_measure._precision_chol, -1, -2)).sum(-1)\n        data = loc * ops.unsqueeze(ops.exp(0.9189385332046727 * loc.shape[-1] - log_det), -1)\n", "R13.14", "eager_integrate_gaussian_variable")
+fire("c14-mixture-sample-draws-from-unweighted-discrete", "C14", CNF,
+     "                    terms.append(term._sample(greedy_vars, sample_inputs, rng_keys[0]))\n                    result = Contraction(\n                        self.red_op, self.bin_op, self.reduced_vars, *terms\n                    )\n                elif any(",
+     "                    terms.append(discrete._sample(greedy_vars, sample_inputs, rng_keys[0]))\n                    result = Contraction(\n                        self.red_op, self.bin_op, self.reduced_vars, *terms\n                    )\n                elif any(", "R14.11", "Contraction._sample")
+fire("c14-monte-carlo-weight-roles-swapped", "C14", MONTECARLO,
+     "    result = sample + model - guide\n", "    result = sample + guide - model\n", "R14.13", "monte_carlo_approximate")
+silent("c14-s-monte-carlo-weight-reassociated", "C14", MONTECARLO,
+       "    result = sample + model - guide\n", "    result = model - guide + sample\n")
+fire("c06-number-unary-real-fast-path", "C06", TERMS,
+     "    def eager_unary(self, op):\n        dtype = find_domain(op, self.output).dtype\n        return Number(op(self.data), dtype)\n",
+     "    def eager_unary(self, op):\n        if self.dtype == \"real\":\n            return Number(op(self.data))\n        dtype = find_domain(op, self.output).dtype\n        return Number(op(self.data), dtype)\n", "R06.3", "Number.eager_unary")
+
 # ===== derived variants: must stay at the END of this file (they enumerate every rename() variant above) =====
 # `if c: A else: B` -> `if not c: B else: A` in the anchor functions (behaviour-preserving)
 def invert(prop, file, qual):
